@@ -55,7 +55,7 @@ def Res.name : Res → String
   | .tooManySessions => "too-many-sessions"
 
 /-- two's-complement wrap of an `int64` result -/
-def wrapI64 (x : Int) : Int := (x + 2 ^ 63) % 2 ^ 64 - 2 ^ 63
+def wrapI64 (x : Int) : Int := (x + 9223372036854775808) % 18446744073709551616 - 9223372036854775808
 
 /-- `ValidateUnixEpochTimestamp`: `diff := tsEpoch - nowEpoch; diff < -MaxEpochDiff || diff > MaxEpochDiff` is an error -/
 def tsValid (ts : Int) (now : Nat) : Bool :=
